@@ -212,6 +212,25 @@ def run_shard(spec, acc):
             acc.violation('library-not-loaded-again', f'run {k + 2} on the reused options with fresh globals did not bind diffLines', {'history': 'options-reuse'})
             return
         check_pair(['a', 'b', 'c'], ['a', 'x', 'c', 'd'], 'array', fn_next, options_r, acc)
+    # an application that includes one of its own files first and the library afterwards (separate include statements, no
+    # systemPrefix: the system include resolves like a plain one - against the includer, not against the file included before)
+    src = bare._fetch_include({'url': bare._FETCH_INCLUDE_PREFIX + 'diff.bare'})  # pylint: disable=protected-access
+    vfiles = {'app/lib/util.bare': "utilLoaded = true", 'app/diff.bare': src, 'diff.bare': src}
+    seen = []
+    g_app = {}
+    import functools
+    from bare_script import url_file_relative
+    o_app = {'globals': g_app, 'fetchFn': lambda req: seen.append(req['url']) or vfiles.get(req['url']), 'urlFn': functools.partial(url_file_relative, 'app/main.bare'), 'maxStatements': 0}
+    try:
+        bare_script.execute_script(bare_script.parse_script("include 'lib/util.bare'\nbetween = 1\ninclude <diff.bare>"), o_app)
+    except Exception as exc:  # pylint: disable=broad-except
+        acc.violation('library-not-loaded-after-another-include', f'{type(exc).__name__}: {exc}; fetched {seen!r}', {'history': 'include-after-include'})
+        return
+    acc.case(('include-after-include',), True)
+    if seen != ['app/lib/util.bare', 'app/diff.bare'] or g_app.get('diffLines') is None:
+        acc.violation('library-not-loaded-after-another-include', f'fetched {seen!r}; diffLines bound: {g_app.get("diffLines") is not None}', {'history': 'include-after-include'})
+        return
+    check_pair(['a', 'b'], ['b', 'c'], 'array', g_app['diffLines'], o_app, acc)
     fn, options = load_diff(api)
     if spec['part'] == 'random' or spec.get('rem', 0) % 3 == 1:
         # two shards out of three load the library lazily (include inside a function body / inside nested blocks)
@@ -265,6 +284,17 @@ def run_shard(spec, acc):
                 long_r = [f'R{k % 89}' for k in range(nr)] + tail
                 check_pair(long_l, long_r, rnd.choice(['array', 'lf']), fn, options, acc)
                 acc.count('long_disjoint_inputs')
+            if case_ix % 16 == 5:
+                # diffLines called from the row expression of a data function that was given a variables object
+                got = bare_script.execute_script(bare_script.parse_script(
+                    "dd = arrayNew(objectNew('l', ll, 'r', rr))\ndataCalculatedField(dd, 'd', 'diffLines(l, r)', objectNew('zz', 1))\n"
+                    "ff = dataFilter(dd, 'arrayLength(diffLines(l, r)) >= zz', objectNew('zz', 0))\nreturn arrayNew(objectGet(arrayGet(dd, 0), 'd'), arrayLength(ff))"),
+                    dict(options, globals=dict(options['globals'], ll=list(left), rr=list(right))))
+                blocks = got[0] if isinstance(got, list) else None
+                check_pair(left, right, 'array', lambda args, o, blocks=blocks: blocks, options, acc)
+                if isinstance(got, list) and got[1] != 1:
+                    acc.violation('diffLines-in-data-expression', f'dataFilter with diffLines in its expression kept {got[1]} of 1 rows', {'left': left, 'right': right, 'form': 'data-expression'})
+                acc.count('calls_from_data_expressions')
             if case_ix % 8 == 3:
                 # history: diffLines bound to a baseline with systemPartial and asked about several right sides in turn
                 sp = options['globals']['systemPartial']([fn, list(left)], options)
